@@ -97,7 +97,9 @@ func (p c14) run(c *core.Ctx) {
 				typedNil = append(typedNil, k)
 			}
 		}
-		if c.Rng.Intn(4) == 0 {
+		// (on the race build every second case runs all closers without gates: the gates' channels and mutex
+		// order every closing goroutine after the whole launching loop and would hide a race between the two)
+		if c.Rng.Intn(4) == 0 || (c.Race && c.Index%2 == 1) {
 			gate.instant[name] = true
 			instant++
 		} else {
